@@ -148,6 +148,7 @@ func scenINV(s *sched.Sim, cfg Config, res *Result) {
 		kind = ast.Mutation
 	}
 	op := gql.GenOp(s.T, w, w.Union, kind, of, 4, 14)
+	sibling := gql.GenOp(s.T, w, w.Union, ast.Query, of, 3, 8)
 	ms := mutants(op, w, s.T.Choose)
 	// keep only mutants the validator rejects (or whose operation cannot be selected)
 	var invalid []invMutant
@@ -290,9 +291,27 @@ func scenINV(s *sched.Sim, cfg Config, res *Result) {
 					passCases++
 					tag := fmt.Sprintf("e%d", passCases)
 					inj = nil
-					target.prefix, target.ordinal, target.count, target.nErr, target.partial, target.active = tag+"#", site, 0, ne, partial, true
+					target.prefix, target.ordinal, target.count, target.nErr, target.partial, target.active = tag+"#0", site, 0, ne, partial, true
 					target.sameMsg = ne > 1 && passCases%3 == 0
-					cr := env.post(tag, []clientReq{{Query: op.Text, Variables: op.Vars, OperationName: op.OpName}}, false)
+					// one case in three: the operation is the first element of a batch, next to an
+					// operation whose services answer without errors. Each must get its own errors.
+					inBatch := passCases%3 == 1 && sibling != nil && sibling.Text != op.Text
+					var cr *clientResp
+					if inBatch {
+						cr = env.post(tag, []clientReq{{Query: op.Text, Variables: op.Vars, OperationName: op.OpName}, {Query: sibling.Text, Variables: sibling.Vars, OperationName: sibling.OpName}}, true)
+						if len(cr.Batch) == 2 {
+							cr.Single = cr.Batch[0]
+							res.Probe("inv.service-errors-inside-a-batch")
+							for _, ce := range cr.Batch[1].Errors {
+								if m, _ := ce["message"].(string); strings.HasPrefix(m, "svc-error-") {
+									res.Violate(prop+"/service-error-at-wrong-operation", "service error %q, answered to a sub-request of batch element 0, is in the errors of element 1\nelement 0: %s\nelement 1: %s", m, op.Text, sibling.Text)
+									break
+								}
+							}
+						}
+					} else {
+						cr = env.post(tag, []clientReq{{Query: op.Text, Variables: op.Vars, OperationName: op.OpName}}, false)
+					}
 					target.active = false
 					if len(inj) == 0 {
 						continue
